@@ -48,6 +48,9 @@ fn make_assets(fmt: &str, src: &[u8]) -> Result<Vec<(String, Vec<u8>)>, String> 
     out.push(("embedded".into(), mk(false, false)?));
     out.push(("remote_only".into(), mk(true, true)?));
     out.push(("remote_embedded".into(), mk(true, false)?));
+    if fmt == "image/jpeg" {
+        out.push(("ocsp_signed".into(), fixture("ocsp.jpg")));
+    }
     Ok(out)
 }
 
@@ -73,10 +76,13 @@ pub fn run(args: &[String]) {
             let cfg = &v["cfg"];
             let asset_kind = v["asset"].as_str().unwrap();
             let op = v["op"].as_str().unwrap();
-            let bytes = &assets.iter().find(|(k, _)| k == asset_kind).unwrap().1;
+            let Some(bytes) = assets.iter().find(|(k, _)| k == asset_kind).map(|a| &a.1) else { continue };
             let mut overlay = json!({"verify": {"remote_manifest_fetch": cfg["rmf"], "ocsp_fetch": cfg["ocsp"]}});
             if cfg["csf"] != "none" {
-                overlay["builder"] = json!({"certificate_status_fetch": cfg["csf"], "certificate_status_should_override": true});
+                overlay["builder"] = json!({"certificate_status_fetch": cfg["csf"]});
+            }
+            if cfg["cso"].as_bool().unwrap_or(false) {
+                overlay["builder"]["certificate_status_should_override"] = json!(true);
             }
             if allowlist {
                 overlay["core"] = json!({"allowed_network_hosts": ["only.example.org"]});
